@@ -157,6 +157,8 @@ type c36H struct {
 	subSpec     map[string]c36Label
 	cmdID       uint32
 	conn        c36Label
+	unsubDeadline time.Time
+	wantUnsub   int // unsubscribe pushes the current step must still deliver (they are written by goroutines)
 }
 
 func c36ChanName(n int) string { return fmt.Sprintf("ch%d", n) }
@@ -315,6 +317,24 @@ func (h *c36H) settle() []c36Ev {
 		}
 		break
 	}
+	if h.wantUnsub > 0 && !h.isClosed() {
+		n := 0
+		for _, e := range h.evs {
+			if e.Kind == "unsub" {
+				n++
+			}
+		}
+		if n < h.wantUnsub && time.Now().Before(h.unsubDeadline) {
+			time.Sleep(200 * time.Microsecond)
+			h.wantUnsub -= n
+			keep := h.evs
+			h.evs = nil
+			more := h.settle()
+			h.evs = nil
+			return append(keep, more...)
+		}
+	}
+	h.wantUnsub = 0
 	evs := h.evs
 	h.evs = nil
 	if h.isClosed() && !h.closed {
@@ -355,7 +375,7 @@ func c36New(t *testing.T, cfg c36Cfg) *c36H {
 			sp := h.subSpec[e.Channel]
 			cb(SubscribeReply{Options: SubscribeOptions{ExpireAt: h.abs(sp.E)}, ClientSideRefresh: sp.CSR}, nil)
 		})
-		if cfg.Refresh != "none" || true {
+		if cfg.Refresh != "none" || h.conn.CSR {
 			c.OnRefresh(func(e RefreshEvent, cb RefreshCallback) {
 				if e.ClientSideRefresh {
 					cb(RefreshReply{ExpireAt: h.abs(h.refreshE)}, nil)
@@ -498,6 +518,7 @@ func (h *c36H) apply(l c36Label) {
 			before := len(c.channels)
 			c.mu.Unlock()
 			c.updatePresence()
+			h.wantUnsub, h.unsubDeadline = want, time.Now().Add(2*time.Second)
 			// expired subscriptions are handled by goroutines spawned by the tick
 			deadline := time.Now().Add(2 * time.Second)
 			for want > 0 && time.Now().Before(deadline) && !h.isClosed() {
